@@ -122,6 +122,91 @@ theorem timedCore_time (d t : Str) (h m c : Nat) (hr : timedCore d t = .time h m
     · cases hr
     · exact C12_timed_fields_below_60 _ _ _ _ _ _ _ h m c hr
 
+/-- what an accepted time satisfies, in units of 1/sd s: not more than two decimals, a positive duration inside the
+    speed window (at most 11 m/s up to 400 m, 10 m/s beyond; at least 0.5 m/s) -/
+theorem timedGuards_speed (xc : Bool) (dval hours minutes sn sd sdecs h m c : Nat)
+    (hr : timedGuards xc true dval hours minutes sn sd sdecs = .time h m c) :
+    h = hours ∧ m = minutes ∧ c = sn * 100 / sd ∧ sdecs ≤ 2 ∧
+    0 < (3600 * hours + 60 * minutes) * sd + sn ∧
+    (dval ≤ 400 → dval * sd ≤ 11 * ((3600 * hours + 60 * minutes) * sd + sn)) ∧
+    (400 < dval → dval * sd ≤ 10 * ((3600 * hours + 60 * minutes) * sd + sn)) ∧
+    (3600 * hours + 60 * minutes) * sd + sn ≤ 2 * dval * sd := by
+  unfold timedGuards at hr
+  split at hr
+  · cases hr
+  · split at hr
+    · cases hr
+    · split at hr
+      · cases hr
+      · next c3 =>
+        split at hr
+        · cases hr
+        · next c4 =>
+          split at hr
+          · cases hr
+          · injection hr with e1 e2 e3
+            generalize (3600 * hours + 60 * minutes) * sd + sn = durN at *
+            simp only [speedBad, Bool.true_and, Bool.or_eq_true, beq_iff_eq, decide_eq_true_eq, not_or] at c4
+            obtain ⟨h0, hw, hslow⟩ := c4
+            refine ⟨e1.symm, e2.symm, e3.symm, by omega, by omega, fun hle => ?_, fun hgt => ?_, by omega⟩
+            · rw [if_pos hle] at hw; simpa using hw
+            · rw [if_neg (by omega)] at hw; simpa using hw
+
+/-- **Timed events, speed window**: for an event with a distance `d`, the time that is returned — `h:mm:ss.cc`, that
+    is `D = (3600 h + 60 m)·100 + c` hundredths of a second — is positive and implies a speed `d / (D/100)` of at most
+    11 m/s (up to 400 m) or 10 m/s (beyond) and at least 0.5 m/s.  For every parsed text of at most two decimals
+    (`sd0 = 10 ^ dc0`, as `floatOf` returns it); texts with more decimals are `skip` in the model. -/
+theorem C12_timed_speed_window (disc : Str) (d : Nat) (hd : 0 < d) (h0 m0 sn0 dc0 h m c : Nat)
+    (hr : timedDecide disc (some d) h0 m0 sn0 (10 ^ dc0) dc0 = .time h m c) :
+    0 < (3600 * h + 60 * m) * 100 + c ∧
+    (d ≤ 400 → d * 100 ≤ 11 * ((3600 * h + 60 * m) * 100 + c)) ∧
+    (400 < d → d * 100 ≤ 10 * ((3600 * h + 60 * m) * 100 + c)) ∧
+    (3600 * h + 60 * m) * 100 + c ≤ 2 * d * 100 := by
+  unfold timedDecide at hr
+  split at hr
+  · cases hr
+  · simp only [hd, decide_true, Option.getD_some] at hr
+    split at hr
+    · split at hr
+      · cases hr
+      · obtain ⟨e1, e2, e3, hdc, hpos, h11, h10, hslow⟩ := timedGuards_speed _ _ _ _ _ _ _ h m c hr
+        have : dc0 = 0 := by omega
+        subst this
+        subst e1; subst e2; subst e3
+        simp only [Nat.pow_zero, Nat.mul_one] at *
+        have hc : (m0 * 100 + sn0) * 100 / 100 = m0 * 100 + sn0 := by omega
+        rw [hc]
+        refine ⟨by omega, fun hle => ?_, fun hgt => ?_, by omega⟩
+        · have := h11 hle; omega
+        · have := h10 hgt; omega
+    · obtain ⟨e1, e2, e3, hdc, hpos, h11, h10, hslow⟩ := timedGuards_speed _ _ _ _ _ _ _ h m c hr
+      subst e1; subst e2; subst e3
+      have hcases : dc0 = 0 ∨ dc0 = 1 ∨ dc0 = 2 := by omega
+      rcases hcases with e | e | e <;> subst e
+      · simp only [Nat.pow_zero, Nat.mul_one, Nat.div_one] at *
+        refine ⟨by omega, fun hle => ?_, fun hgt => ?_, by omega⟩
+        · have := h11 hle; omega
+        · have := h10 hgt; omega
+      · have hc : sn0 * 100 / 10 ^ 1 = sn0 * 10 := by omega
+        rw [hc]
+        simp only [Nat.pow_one] at *
+        refine ⟨by omega, fun hle => ?_, fun hgt => ?_, by omega⟩
+        · have := h11 hle; omega
+        · have := h10 hgt; omega
+      · have hc : sn0 * 100 / 10 ^ 2 = sn0 := by omega
+        rw [hc]
+        have h100 : (10 : Nat) ^ 2 = 100 := by decide
+        rw [h100] at hpos h11 h10 hslow
+        refine ⟨by omega, fun hle => ?_, fun hgt => ?_, by omega⟩
+        · have := h11 hle; omega
+        · have := h10 hgt; omega
+
+/-- non-vacuity: 400 m in 63:40 (read as 63.40 s) and 1500 m in 3:45.6 are accepted -/
+example : timedDecide "400".toList (some 400) 0 63 40 (10 ^ 0) 0 = .time 0 0 6340 := by decide
+example : timedDecide "1500".toList (some 1500) 0 3 456 (10 ^ 1) 1 = .time 0 3 4560 := by decide
+/-- and a zero time is refused -/
+example : timedDecide "100".toList (some 100) 0 0 0 (10 ^ 0) 0 = .refused := by decide
+
 /-! ## read-back for every number; field results are stable -/
 
 
